@@ -122,9 +122,32 @@ class ExprMixin:
     # ------------------------------------------------------------ dispatcher --
     def ev(self, node, st):
         m = getattr(self, "e_" + type(node).__name__, None)
-        if m is None:
-            self.unsupported(node, f"expression {type(node).__name__}")
-        return m(node, st)
+        if not self.abstract:
+            if m is None:
+                self.unsupported(node, f"expression {type(node).__name__}")
+            return m(node, st)
+        npc = len(st.pc)
+        try:
+            if m is None:
+                self.unsupported(node, f"expression {type(node).__name__}")
+            return m(node, st)
+        except Unsupported as e:
+            # abstract mode: the expression may do anything to reachable state, raise any Exception,
+            # and yields an unknown value -- a sound over-approximation for safety properties
+            del st.pc[npc:]
+            self.abstracted.append(str(e)[:160])
+            self.havoc_everything(st)
+            self.exc_any(st.fork(), f"{self.loc(node)} abstracted expression")
+            return [(st, VUnk("abstracted"))]
+
+    def havoc_everything(self, st):
+        for fr in st.frames:
+            for k, v in list(fr.env.items()):
+                if not isinstance(v, (VFunc, VType, VMod, VUnk)):
+                    fr.env[k] = VUnk(f"havoc:{k}")
+        for r in list(st.heap):
+            o = st.heap[r]
+            st.heap[r] = HeapObj("unk", None, o.cls, o.fresh)
 
     def ev_list(self, nodes, st):
         """Evaluate expressions left to right -> [(state, [V...])]."""
@@ -521,6 +544,9 @@ class ExprMixin:
 
     def contains(self, st, container, item, node):
         """-> [(state, VBool)] for `item in container`."""
+        if isinstance(item, VUnk) and not isinstance(container, VUnk):
+            self.exc_any(st.fork(), f"{self.loc(node)} unknown in container")
+            return [(st, VBool(z3.Bool(fresh_name("in"))))]
         if isinstance(container, (VSetC, VDictC)):
             keys = list(container.items)
             terms = []
